@@ -239,7 +239,7 @@ Definition counts_consistent (c : counts) : Prop :=
   total_ops c = sum_of fc_ops (per_fn c) /\
   total_blocks c = sum_of fc_blocks (per_fn c) /\
   total_ops c = n_statements c /\
-  sum_of fc_locals (per_fn c) = n_locals c.
+  Forall (fun x => fc_locals x <= n_locals c) (per_fn c).
 
 (* ------------------------------------------------------------------------------------ *)
 (** * The gate in Resolver::emit_analysis_warnings *)
@@ -421,22 +421,55 @@ Definition count_block (l : list stmt) (s : cstate) : cstate :=
 Definition count_body (body : list stmt) : Z * Z :=
   let s := count_block body (mkC 2 0 true) in (cs_blocks s, cs_ops s).
 
-(* locals declared by the statements of one function body (nested blocks included, nested
-   functions excluded: their locals belong to them) *)
-Fixpoint own_locals (st : stmt) : Z :=
+(* every local declared inside a statement: declarations and parameters, nested functions
+   included (each gets the next LocalId in traversal order) *)
+Fixpoint total_locals (st : stmt) : Z :=
   match st with
   | SDecl _ => 1
   | SBlock b | SLoop _ b =>
-      (fix go (l : list stmt) : Z := match l with [] => 0 | x :: r => own_locals x + go r end) b
+      (fix go (l : list stmt) : Z := match l with [] => 0 | x :: r => total_locals x + go r end) b
+  | SFn p b =>
+      p + (fix go (l : list stmt) : Z := match l with [] => 0 | x :: r => total_locals x + go r end) b
   | SIf _ t he e =>
-      (fix go (l : list stmt) : Z := match l with [] => 0 | x :: r => own_locals x + go r end) t +
+      (fix go (l : list stmt) : Z := match l with [] => 0 | x :: r => total_locals x + go r end) t +
       (if he then
-         (fix go (l : list stmt) : Z := match l with [] => 0 | x :: r => own_locals x + go r end) e
+         (fix go (l : list stmt) : Z := match l with [] => 0 | x :: r => total_locals x + go r end) e
        else 0)
   | _ => 0
   end.
 
-Definition own_locals_block (l : list stmt) : Z := fold_left (fun a x => a + own_locals x) l 0.
+Definition total_locals_block (l : list stmt) : Z := fold_left (fun a x => a + total_locals x) l 0.
+
+(* The LocalId range of one function (facts.local_range): from its first to its latest own
+   local; the locals of a nested function are numbered in between (the nested body is resolved
+   at its definition statement) and therefore fall inside the range.  State: next id relative
+   to the function's first parameter, lowest own id (-1: none yet), highest own id. *)
+Record lspan := mkSpan { ls_next : Z; ls_lo : Z; ls_hi : Z }.
+
+Fixpoint walk_span (st : stmt) (s : lspan) : lspan :=
+  match st with
+  | SDecl _ => mkSpan (ls_next s + 1) (if ls_lo s <? 0 then ls_next s else ls_lo s) (ls_next s)
+  | SFn p b =>
+      mkSpan (ls_next s + p +
+              (fix go (l : list stmt) : Z := match l with [] => 0 | x :: r => total_locals x + go r end) b)
+             (ls_lo s) (ls_hi s)
+  | SBlock b | SLoop _ b =>
+      (fix go (l : list stmt) (s : lspan) : lspan :=
+         match l with [] => s | x :: r => go r (walk_span x s) end) b s
+  | SIf _ t he e =>
+      let s1 := (fix go (l : list stmt) (s : lspan) : lspan :=
+                   match l with [] => s | x :: r => go r (walk_span x s) end) t s in
+      if he then
+        (fix go (l : list stmt) (s : lspan) : lspan :=
+           match l with [] => s | x :: r => go r (walk_span x s) end) e s1
+      else s1
+  | _ => s
+  end.
+
+Definition local_range_len (params : Z) (body : list stmt) : Z :=
+  let s := fold_left (fun s x => walk_span x s) body
+             (mkSpan params (if 0 <? params then 0 else -1) (params - 1)) in
+  if ls_lo s <? 0 then 0 else ls_hi s - ls_lo s + 1.
 
 (* statements (push_stmt_effect calls), all functions together *)
 Fixpoint stmts_in (st : stmt) : Z :=
@@ -485,7 +518,7 @@ Fixpoint calls_in (st : stmt) : Z :=
 Definition sum_block (f : stmt -> Z) (l : list stmt) : Z := fold_left (fun a x => a + f x) l 0.
 
 Definition fn_entry (params : Z) (body : list stmt) : fn_counts :=
-  let bo := count_body body in mkFn (fst bo) (snd bo) (params + own_locals_block body).
+  let bo := count_body body in mkFn (fst bo) (snd bo) (local_range_len params body).
 
 (* functions predeclared by one block, in FunctionId order *)
 Definition direct_fns (l : list stmt) : list fn_counts :=
@@ -518,7 +551,7 @@ Definition program_fns (root : list stmt) : list fn_counts :=
 Definition counts_of_program (root : list stmt) : counts :=
   let pf := program_fns root in
   mkCounts pf
-           (sum_of fc_locals pf)
+           (sum_block total_locals root)
            (1 + sum_block scopes_in root)
            (sum_block stmts_in root)
            (sum_block calls_in root)
